@@ -69,7 +69,8 @@ subscript assignment: all refused)
       "literal" ; chr(e) -> `[e]` behind the test 0 <= e < 0x110000 ; s + s ; s += s
       ord('c') -> the code point ; ord(s[i]) and x[i] (x a list/bytearray local, i a non-negative
       literal) -> the element, `none` (IndexError) beyond the end ; len(x) ; truthiness `x != []`
-      x = [e1, ..., en] (a fresh list, only as a whole right-hand side) ; x[i] = e for such a
+      x = [e1, ..., en] / return [e1, ..., en] (a fresh list, only as a whole right-hand side / return
+      value) ; x[i] = e for such a
       local (`List.set` behind the IndexError test).  A list/bytearray is never copied from name
       to name and never passed to a call, so there is no aliasing; strings are immutable.
     float(e) * TABLE[i]                    TABLE a module-level name bound exactly once, to a list literal:
@@ -90,9 +91,12 @@ subscript assignment: all refused)
                                            `<name>_unpack` for the theorems to tie to the struct model
     reaching the end                       `some [("X", self_X), ...]`: the int attributes set on that
                                            path, in order of first assignment
-  attribute-reading methods (`Func(attrs_in=True, ctx_attrs=("cm",))`): every `self.X` read (X not a context
-    attribute) is an int INPUT: a parameter `self_X`, parameters sorted by attribute name (assumption: the attribute
-    holds an int); `return <cm>.packer["FMT"].pack(e1, ..., en)` returns the argument tuple `[e1, ..., en]`,
+  attribute-reading methods (`Func(attrs_in=True, ctx_attrs=("cm",))`): the translated function takes the object's
+    int attributes as `self_ : List (String × Int)` (the value an init-mode constructor returns); every `self.X`
+    read (X not a context attribute) is `List.lookup "X" self_`, hoisted like a call (`none` = AttributeError;
+    assumption: the attribute holds an int).  Reading by NAME matters: a positional parameter per attribute
+    would make `return self.B` for `return self.CCCC` invisible to a theorem that passes values by position.
+    `return <cm>.packer["FMT"].pack(e1, ..., en)` returns the argument tuple `[e1, ..., en]`,
     struct is not interpreted, FMT is emitted as `<name>_pack`.  No attribute is stored.
   Stream reads, calls and the raise-tests are hoisted in evaluation order in front of the
   statement; they are refused inside `and`/`or` operands after the first and inside conditional
@@ -133,8 +137,9 @@ class Func:
 
     def __init__(self, name, cls=None, ctx=("cm", "self"), stream=None, types=None, ret=T_INT, fuels=(),
                  lean_name=None, init=False, unpacked=None, attrs_in=False, ctx_attrs=()):
-        # attrs_in=True: a method that only READS int attributes `self.X`: each becomes an Int parameter
-        # `self_X` (sorted by attribute name; listed in `attr_params`).  ctx_attrs: attributes that hold a
+        # attrs_in=True: a method that only READS int attributes `self.X`: the translated function takes the
+        # object's int attributes `self_ : List (String × Int)` (what an init-mode constructor returns) and looks
+        # each one up BY NAME (`none` = AttributeError).  ctx_attrs: attributes that hold a
         # context object (self.cm).  `return <cm>.packer["FMT"].pack(e1, ..., en)` is then allowed as the
         # uninterpreted result `[e1, ..., en]` (FMT recorded as `<name>_pack`).
         self.attrs_in, self.ctx_attrs0 = attrs_in, tuple(ctx_attrs)
@@ -235,9 +240,10 @@ class FuncTranslator:
                 return ilit(2 ** 63 - 1), T_INT
             if self.spec.attrs_in and isinstance(node.value, ast.Name) and node.value.id == "self" \
                     and node.attr not in self.ctx_attrs and "self" in self.spec.ctx:
+                # an int attribute of the object: looked up BY NAME in the attribute list (AttributeError = none)
                 if node.attr not in self.spec.attr_params:
                     self.spec.attr_params.append(node.attr)
-                return "self_" + node.attr, T_INT
+                return self.bind(node, pre, hoist, f'List.lookup "{node.attr}" self_', T_INT, False)
             if self.spec.init and isinstance(node.value, ast.Name) and node.value.id == "self":
                 key = "self." + node.attr
                 if key in env.d:
@@ -609,7 +615,11 @@ class FuncTranslator:
                 if self.spec.ret != T_LIST:
                     raise Unsupported(st, "declare ret=T_LIST for a method returning packer[...].pack(...)")
                 return self.count([self.src(st)] + self.emit_pre(pre) + ["some ([" + ", ".join(args) + "] : Py.IntList)"])
-            s, t = self.expr(st.value, env, pre, True)
+            if isinstance(v, ast.List):                     # return [e1, ..., en]: a fresh list of ints
+                s = "([" + ", ".join(self.int_expr(e, env, pre, True) for e in v.elts) + "] : Py.IntList)"
+                t = T_LIST
+            else:
+                s, t = self.expr(st.value, env, pre, True)
             if t != self.spec.ret:
                 raise Unsupported(st, f"returns {t}, declared {self.spec.ret}")
             return self.count([self.src(st)] + self.emit_pre(pre) + [f"some ({s}, bs)" if self.uses_stream else f"some {s}"])
@@ -824,9 +834,8 @@ class FuncTranslator:
         if len([n for n in ast.walk(fn) if isinstance(n, ast.While)]) != len(spec.fuels):
             raise Unsupported(fn, "number of fuels differs from the number of while loops")
         if spec.attrs_in:
-            # sorted by name, NOT by order of first read: the position of a parameter must not depend on the body
             spec.attr_params = sorted(spec.attr_params)
-            spec.params = [("self_" + a_, T_INT) for a_ in spec.attr_params] + spec.params
+            spec.params = [("self_", T_FIELDS)] + spec.params
         sig = " ".join(f"({p} : {t})" for p, t in spec.params) + (" (bs : List Nat)" if self.uses_stream else "")
         where = f"{spec.cls}.{spec.name}" if spec.cls else spec.name
         if spec.pack_fmt is not None:
@@ -844,7 +853,7 @@ class FuncTranslator:
                     f'def {spec.lean_name}_unpack : String × Nat := ("{spec.unpack_info[0]}", {spec.unpack_info[1]})', ""]
         out += out_pack
         out += [f"/-- `{where}` (source lines {fn.lineno}-{fn.end_lineno})" + (
-                    "; the int attributes read are the parameters " + ", ".join("self_" + a_ for a_ in spec.attr_params)
+                    "; `self_` is the list of the object's int attributes, read by name: " + ", ".join(spec.attr_params)
                     if spec.attrs_in else "") + " -/",
                 f"def {spec.lean_name} {sig} : {self.ret_type()} :=".replace("  :", " :")]
         out += ["  " + x for x in body]
